@@ -309,6 +309,10 @@ func genProbes(s src, st keyStyle, m *sortedMap, limit int) [][]byte {
 		}
 		k := m.keys[i]
 		add(k)
+		if len(k) == 0 { // only in the informational empty-key class
+			add([]byte{st.byteAt(s, "ext")})
+			continue
+		}
 		// proper prefixes
 		if len(k) <= 10 {
 			for c := 1; c < len(k); c++ {
